@@ -18,3 +18,4 @@ func TestMain(m *testing.M) {
 
 func TestC02(t *testing.T) { simkit.Main(t, HarnessC02) }
 func TestC01(t *testing.T) { simkit.Main(t, HarnessC01) }
+func TestC04(t *testing.T) { simkit.Main(t, HarnessC04) }
